@@ -266,6 +266,7 @@ pub fn fail_injection<S: USet>(e: &mut Eng<S>, hists: usize, steps: usize) {
                 v = f.1;
             }
             let kind = if let Some(k) = forced.pop() { k.0 } else { e.rng.below(13) };
+            let ext_n: u64 = [5, 5, 18, 40][e.rng.below(4) as usize];
             // dry run on a clone: how many allocations does the op request?
             let probe = |s: &mut S, kind: u64, v: u64| -> bool {
                 match kind {
@@ -282,8 +283,8 @@ pub fn fail_injection<S: USet>(e: &mut Eng<S>, hists: usize, steps: usize) {
                         true
                     }
                     10 => {
-                        // extend by a few values around v (several inserts, possibly several growths)
-                        let vs: Vec<u64> = (0..5).map(|k| S::norm(v.wrapping_add(k * 1000))).collect();
+                        // extend by a few (or a few dozen: bulk paths) values around v (several inserts, possibly several growths)
+                        let vs: Vec<u64> = (0..ext_n).map(|k| S::norm(v.wrapping_add(k * 1000))).collect();
                         s.extend(&vs);
                         true
                     }
@@ -365,7 +366,7 @@ pub fn fail_injection<S: USet>(e: &mut Eng<S>, hists: usize, steps: usize) {
                         if kind == 10 {
                             // extend is a loop of inserts: what was inserted before the failing insert stays
                             let now: BTreeSet<u64> = c.items().into_iter().collect();
-                            let vs: BTreeSet<u64> = (0..5).map(|k| S::norm(v.wrapping_add(k * 1000))).collect();
+                            let vs: BTreeSet<u64> = (0..ext_n).map(|k| S::norm(v.wrapping_add(k * 1000))).collect();
                             let upper: BTreeSet<u64> = e.oracle[0].union(&vs).cloned().collect();
                             if !(e.oracle[0].is_subset(&now) && now.is_subset(&upper) && c.len() == now.len()) {
                                 e.fail("C14", format!("after a caught allocation failure inside extend the set holds neither its prior contents nor a prefix of the extension (allocation #{}, value {})", k, v));
@@ -420,7 +421,7 @@ pub fn fail_injection<S: USet>(e: &mut Eng<S>, hists: usize, steps: usize) {
                 e.bump(&format!("flt:requests:{}", nalloc));
             }
             if kind == 10 && !S::TYPED && nalloc <= 6 && after_fail.len() as u64 == nalloc as u64 {
-                let vs: Vec<u64> = (0..5).map(|k| S::norm(v.wrapping_add(k * 1000))).collect();
+                let vs: Vec<u64> = (0..ext_n).map(|k| S::norm(v.wrapping_add(k * 1000))).collect();
                 let mut l = format!("flx 0 {}", vs.len());
                 for x in &vs {
                     l.push_str(&format!(" {}", x));
@@ -448,7 +449,7 @@ pub fn fail_injection<S: USet>(e: &mut Eng<S>, hists: usize, steps: usize) {
                 0..=6 => e.op_ins(0, v),
                 7 => e.op_rem(0, v),
                 10 => {
-                    let vs: Vec<u64> = (0..5).map(|k| S::norm(v.wrapping_add(k * 1000))).collect();
+                    let vs: Vec<u64> = (0..ext_n).map(|k| S::norm(v.wrapping_add(k * 1000))).collect();
                     e.op_extend(0, &vs);
                 }
                 _ => e.op_con(0, v),
